@@ -472,13 +472,13 @@ func TestC02(t *testing.T) {
 }
 
 type stabRec struct {
-	K    string `json:"k"`
-	B    []int  `json:"b"`
-	OK1  int    `json:"ok1"`
-	V1   SV     `json:"v1"`
-	OK2  int    `json:"ok2"`
-	V2   SV     `json:"v2"`
-	Pan  int    `json:"panic"`
+	K   string `json:"k"`
+	B   []int  `json:"b"`
+	OK1 int    `json:"ok1"`
+	V1  SV     `json:"v1"`
+	OK2 int    `json:"ok2"`
+	V2  SV     `json:"v2"`
+	Pan int    `json:"panic"`
 }
 
 // logStable decodes an arbitrary (possibly non-canonical) byte string; if it is accepted as an encodable
